@@ -47,7 +47,7 @@ fn outer(scen: &str, o: &Opts, raw: &[String]) -> i32 {
     }
 }
 
-fn replay_file(path: &str) -> i32 {
+fn replay_file(path: &str, inner: bool, timeout_s: u64) -> i32 {
     let txt = match std::fs::read_to_string(path) {
         Ok(t) => t,
         Err(e) => {
@@ -62,11 +62,37 @@ fn replay_file(path: &str) -> i32 {
             return 2;
         }
     };
+    let class = j["class"].as_str().unwrap_or("").to_string();
+    if !inner && (class == "hang" || class == "process_death") {
+        // these two can only be observed from outside the process that executes the case
+        return match harness::external_classes(path, timeout_s) {
+            Ok(classes) => {
+                let id = j["property"].as_str().unwrap_or("?");
+                for c in &classes {
+                    println!("REPLAY property={id} class={c}");
+                }
+                if classes.iter().any(|c| *c == class) {
+                    println!("REPLAY-REPRODUCED property={id} class={class}");
+                    1
+                } else if classes.is_empty() {
+                    println!("REPLAY property={id} result=no-violation expected-class={class}");
+                    0
+                } else {
+                    println!("REPLAY-DIFFERENT property={id} expected-class={class}");
+                    1
+                }
+            }
+            Err(e) => {
+                eprintln!("HARNESS-ERROR: {e}");
+                2
+            }
+        };
+    }
     match j["scenario"].as_str().unwrap_or("") {
-        "corrupt" => harness::replay(scen_corrupt::Corrupt, &j),
-        "batch" => harness::replay(scen_batch::Batch, &j),
-        "chain" => harness::replay(scen_chain::Chain, &j),
-        "limits" => harness::replay(scen_limits::Limits::new(), &j),
+        "corrupt" => harness::replay(scen_corrupt::Corrupt, &j, timeout_s),
+        "batch" => harness::replay(scen_batch::Batch, &j, timeout_s),
+        "chain" => harness::replay(scen_chain::Chain, &j, timeout_s),
+        "limits" => harness::replay(scen_limits::Limits::new(), &j, timeout_s),
         s => {
             eprintln!("HARNESS-ERROR: unknown scenario {s:?} in {path}");
             2
@@ -92,7 +118,8 @@ fn main() {
                 2
             }
         },
-        Some("replay") if args.len() == 2 => replay_file(&args[1]),
+        Some("replay") if args.len() == 2 => replay_file(&args[1], false, 60),
+        Some("replay-inner") if args.len() == 4 && args[2] == "--timeout" => replay_file(&args[1], true, args[3].parse().unwrap_or(60)),
         Some("limits-child") if args.len() == 2 => scen_limits::child_main(&args[1]),
         Some("limits-floors") => scen_limits::floors_main(),
         _ => usage(),
